@@ -121,6 +121,7 @@ func (e *envT) bundle(name string, n int, deltaN int) *bundleT {
 		}
 	}
 	os.RemoveAll(root)
+	os.WriteFile(filepath.Join(e.bdir, name+".ref"), bt.Ref, 0o600)
 	// DER files for child processes
 	os.WriteFile(filepath.Join(e.bdir, name+".base"), b.BaseCRL.Raw, 0o600)
 	if b.DeltaCRL != nil {
